@@ -8,14 +8,14 @@ WT=${MUT_WT:-/tmp/wt-mut}
 git -C "$WT" checkout -q --detach "$(git -C /repo rev-parse HEAD)"
 for d in /verif/seeded/*/; do
   id=$(basename "$d"); prop=$(python3 -c "import json;m=json.load(open('$d/meta.json'));print(m.get('checked_with',m['property']))")
-  git -C "$WT" checkout -q -- . ; git -C "$WT" clean -fdq
-  if ! git -C "$WT" apply --3way "$d/patch.diff" 2>/dev/null; then echo "$id $prop PATCH-DOES-NOT-APPLY"; git -C "$WT" checkout -q -- .; continue; fi
+  git -C "$WT" reset -q --hard HEAD; git -C "$WT" clean -fdq
+  if ! git -C "$WT" apply --3way "$d/patch.diff" 2>/dev/null; then echo "$id $prop PATCH-DOES-NOT-APPLY"; git -C "$WT" reset -q --hard HEAD; continue; fi
   git -C "$WT" reset -q
-  if ! (cd "$WT" && GOPROXY=off GOSUMDB=off GOTOOLCHAIN=local go build ./... 2>/dev/null); then echo "$id $prop DOES-NOT-BUILD"; git -C "$WT" checkout -q -- .; continue; fi
+  if ! (cd "$WT" && GOPROXY=off GOSUMDB=off GOTOOLCHAIN=local go build ./... 2>/dev/null); then echo "$id $prop DOES-NOT-BUILD"; git -C "$WT" reset -q --hard HEAD; continue; fi
   out=$(VERIF_EVIDENCE_DIR=/tmp/mut-evidence VERIF_REPLAY_DIR=/tmp/mut-replays VERIF_REPO=$WT /verif/bin/simcheck $prop -tier quick -secs $SECS 2>&1)
   rc=$?
   first=$(printf '%s\n' "$out" | grep '^violation:' | head -1 | cut -c1-110)
   n=$(printf '%s\n' "$out" | grep -c '^VIOLATION')
   echo "$id $prop exit=$rc violations=$n $first"
-  git -C "$WT" checkout -q -- . ; git -C "$WT" clean -fdq
+  git -C "$WT" reset -q --hard HEAD; git -C "$WT" clean -fdq
 done
